@@ -260,7 +260,7 @@ def build_trace(cases, events):
     return lines, refs
 
 
-def judge(ctx, lines, mode, tag, chunk=3000, par=6, timeout=900):
+def judge(ctx, lines, mode, tag, chunk=3000, par=4, timeout=900):
     """TLC evaluates the specification on every event; returns [(line index, reason)] for the rejected ones.
     Chunks are cut at configuration boundaries (an exec event is judged against the preceding load event)."""
     import os, re, shutil
@@ -638,6 +638,8 @@ def run_property(ctx, prop):
     from vlib import Broken, parallel
     T = ctx.thorough
     tier = "thorough" if T else "quick"
+    # the box is shared: keep every JVM of this check well below TLC's default heap (25% of RAM each)
+    os.environ.setdefault("JAVA_TOOL_OPTIONS", "-Xmx5g" if T else "-Xmx3g")
     binary = ctx.build_harness("c04")
     ctx.cov["checker_cmd"] = ("tlc -config MC_%s_%s.cfg MC_C04.tla ; tlc -config GenExport_%s.cfg GenExportC04.tla ; "
                               "tlc -config FlowTrace_%s.cfg FlowTrace.tla" % (tier, prop.lower(), tier, prop))
@@ -685,13 +687,13 @@ def run_property(ctx, prop):
                     "executed": [[s["key"], s["dir"], s["out"]] for s in lines[k]["seq"]]})
 
     # (3) code -> spec: seeded random configurations beyond the enumerated space + hand-written ones
-    nr = 350 if not T else 4000
+    nr = 600 if not T else 4000
     rcases = [make_case("h-" + k, v) for k, v in sorted(handcrafted().items())]
     rcases += [make_case("r%d" % i, random_config(ctx.rng, True)) for i in range(nr)]
     if prop == "C05":
         for c in rcases[:: (6 if not T else 4)]:
             c["txs"] = c["txs"] + malformed_txs(ctx.rng, 6 if not T else 12)
-        rcases += quota_cases(ctx.rng) + flow_file_cases(ctx.rng) + yaml_mutants(ctx.rng, 250 if not T else 3000)
+        rcases += quota_cases(ctx.rng) + flow_file_cases(ctx.rng) + yaml_mutants(ctx.rng, 400 if not T else 4000)
     lines2, refs2, bad2 = exercise(ctx, prop, binary, rcases, "rand", reported)
     account(lines2, refs2, bad2)
     k = next((i for i, l in enumerate(lines2) if l["ev"] == "exec" and any(s.get("sid") for s in l["seq"]) and l["dir"] == "req"), None)
@@ -740,6 +742,8 @@ def run_property(ctx, prop):
 
 
 def replay_property(ctx, prop, path):
+    import os
+    os.environ.setdefault("JAVA_TOOL_OPTIONS", "-Xmx3g")
     obj = json.load(open(path))
     rp = obj["replay"]
     binary = ctx.build_harness("c04")
@@ -772,6 +776,7 @@ FLOW_FILES = {
     "null-processor": "name: A\nfilter:\n  url: h.test/x\nprocessors:\n  p:\n" + _OKFLOW,
     "no-filter": "name: A\nprocessors: {}\n" + _OKFLOW,
     "null-filter-url": "name: A\nfilter:\n  url:\nprocessors: {}\n" + _OKFLOW,
+    "null-parameter": _HEAD.replace("    parameters:\n", "    parameters:\n      -\n") + _OKFLOW,
     "null-connection": _HEAD + "flow:\n  request:\n    -\n  response:\n    -\n",
     "null-from": _HEAD + "flow:\n  request:\n    - from:\n      to:\n        processor:\n          name: p\n  response:\n    - from:\n      to:\n",
     "empty-endpoints": _HEAD + "flow:\n  request:\n    - from: {}\n      to: {}\n  response:\n    - from: {}\n      to: {}\n",
